@@ -479,6 +479,44 @@ fn classify(pcs: &[PatternChar]) -> Kind {
     }
 }
 
+/// Independent reference for component patterns without an unquoted `[` (no yash_fnmatch involved): an
+/// unquoted `*` is any string, an unquoted `?` any one character, every other pattern character — quoted
+/// or not, whatever precedes it — stands for itself; a name that starts with a period needs a period as
+/// the first pattern character.  `None` = the pattern has an unquoted `[` (left to the Lean model).
+fn reference_match(pcs: &[PatternChar], name: &str) -> Option<bool> {
+    if pcs.iter().any(|c| *c == PatternChar::Normal('[')) {
+        return None;
+    }
+    fn go(p: &[PatternChar], s: &[char]) -> bool {
+        match p.first() {
+            None => s.is_empty(),
+            Some(PatternChar::Normal('*')) => (0..=s.len()).any(|k| go(&p[1..], &s[k..])),
+            Some(PatternChar::Normal('?')) => !s.is_empty() && go(&p[1..], &s[1..]),
+            Some(c) => !s.is_empty() && s[0] == c.char_value() && go(&p[1..], &s[1..]),
+        }
+    }
+    let n: Vec<char> = name.chars().collect();
+    if n.first() == Some(&'.') && pcs.first().map(|c| c.char_value()) != Some('.') {
+        return Some(false);
+    }
+    Some(go(pcs, &n))
+}
+
+/// … and the classification such a pattern must get: a literal (its characters) iff it has no unquoted
+/// `*` or `?`; never unparsable.
+fn reference_kind_ok(pcs: &[PatternChar], kind: &Kind) -> Option<bool> {
+    if pcs.iter().any(|c| *c == PatternChar::Normal('[')) {
+        return None;
+    }
+    let wild = pcs.iter().any(|c| matches!(c, PatternChar::Normal('*') | PatternChar::Normal('?')));
+    let text: String = pcs.iter().map(|c| c.char_value()).collect();
+    Some(match kind {
+        Kind::Invalid => false,
+        Kind::Literal(s) => !wild && *s == text,
+        Kind::Pattern(_) => wild,
+    })
+}
+
 // ------------------------------------------------------------------------------------------
 // one case
 
@@ -863,6 +901,9 @@ fn prepare(env: &mut VEnv, state: &Rc<RefCell<SystemState>>, prim: &Prim, d: &mu
     for (pcs, kinds) in &pending {
         for (p, kd) in pcs.iter().zip(kinds) {
             let key = show_pcs(p);
+            if reference_kind_ok(p, kd) == Some(false) {
+                d.verdicts.push(format!("reference-classification-differs:{key}"));
+            }
             let val = match kd {
                 Kind::Invalid => "N".to_string(),
                 Kind::Literal(s) => format!("L{}", enc_str(s)),
@@ -871,6 +912,10 @@ fn prepare(env: &mut VEnv, state: &Rc<RefCell<SystemState>>, prim: &Prim, d: &mu
                     // matched by a pattern that starts with a period character (quoted or not)
                     if p.first().map(|c| c.char_value()) != Some('.') && names.iter().any(|n| n.starts_with('.') && pat.is_match(n)) {
                         d.verdicts.push(format!("period-rule:{key}"));
+                    }
+                    // quoted pattern characters are literal whatever precedes them (reference matcher)
+                    if let Some(n) = names.iter().find(|n| reference_match(p, n).is_some_and(|b| b != pat.is_match(n))) {
+                        d.verdicts.push(format!("reference-match-differs:{key}:{}", enc_str(n)));
                     }
                     let ms: Vec<String> = names.iter().filter(|n| pat.is_match(n)).map(|n| enc_str(n)).collect();
                     if ms.is_empty() { "P".to_string() } else { format!("P={}", ms.join(".")) }
@@ -1196,6 +1241,10 @@ const TAILS: [&str; 7] = ["", "bar", "d", "x", "\u{e9}", "A1", "9"];
 const MODES_SEARCHABLE: [u32; 12] = [0o700, 0o750, 0o710, 0o711, 0o500, 0o300, 0o100, 0o555, 0o111, 0o751, 0o701, 0o311];
 const MODES_UNSEARCHABLE: [u32; 10] = [0o644, 0o400, 0o200, 0o000, 0o444, 0o070, 0o007, 0o055, 0o666, 0o011];
 
+/// further names made of pattern characters (a quarter of the directories get one to three of them, at
+/// every depth): what `*"*"`, `"?"?`, `a'['*`, `\**` … must find, and must not find
+const META_NAMES: [&str; 16] = ["a*", "*a", "**", "a?", "?a", "??", "[a", "[ab]", "*?", "?*", "a*b", "*]", "a[", "-*", ".*", "*."];
+
 fn gen_mode(r: &mut Rng, plain: bool) -> u32 {
     match r.below(10) {
         0..=4 => 0o755,
@@ -1209,6 +1258,15 @@ fn gen_mode(r: &mut Rng, plain: bool) -> u32 {
 fn gen_dir(r: &mut Rng, plain: bool, prefix: &str, depth: usize, out: &mut Vec<Entry>) {
     let n = if depth == 0 { 4 + r.below(6) } else { 1 + r.below(5) };
     let mut used: Vec<String> = vec![];
+    if r.chance(1, 4) {
+        for _ in 0..1 + r.below(3) {
+            let name = *r.pick(&META_NAMES);
+            if !used.iter().any(|u| u == name) {
+                used.push(name.to_string());
+                out.push(Entry::File(format!("{prefix}{name}")));
+            }
+        }
+    }
     for _ in 0..n {
         // the last two names are rarer
         let name = if r.chance(1, 12) { NAMES[10 + r.below(2)] } else { NAMES[r.below(10)] };
@@ -1606,6 +1664,81 @@ fn gen_guided(r: &mut Rng, tree: &[Entry], base: usize) -> Option<(String, Vec<(
     Some((g.text, g.assigns))
 }
 
+/// pattern characters and a few ordinary ones, the units of an "adjacency" component
+const ADJ_UNITS: [&str; 14] = ["*", "*", "*", "?", "?", "[", "]", "[ab]", "[!a]", "a", "b", ".", "-", "!"];
+
+/// One component made of two to four units, each unit unquoted, quoted in one of the three ways, or
+/// coming from a variable (unquoted, quoted, or unquoted with a backslash in the value): every order of
+/// (unquoted wildcard, quoted/escaped wildcard character), e.g. `*"*"`, `"*"*`, `*\*`, `?'?'`, `[ab]*'*'`,
+/// `"["*`, `*${v}` with v=`\*`.  A quoted pattern character is literal whatever stands before it.
+fn adjacency_component(g: &mut WordGen, r: &mut Rng) {
+    let n = 2 + r.below(3);
+    // make sure one unquoted wildcard and one quoted pattern character are neighbours in most components
+    let forced = r.below(n - 1);
+    let order = r.chance(1, 2);
+    for k in 0..n {
+        let unit = if k == forced || k == forced + 1 { *r.pick(&["*", "*", "?", "[ab]", "["]) } else { *r.pick(&ADJ_UNITS) };
+        let quoted = if k == forced { order } else if k == forced + 1 { !order } else { r.chance(1, 2) };
+        if !quoted {
+            g.text.push_str(unit);
+            continue;
+        }
+        match r.below(7) {
+            0 | 1 => g.text.push_str(&format!("'{unit}'")),
+            2 | 3 => g.text.push_str(&format!("\"{unit}\"")),
+            4 => {
+                for c in unit.chars() {
+                    g.text.push('\\');
+                    g.text.push(c);
+                }
+            }
+            roll => {
+                if g.nvars >= 2 {
+                    g.text.push_str(&format!("'{unit}'"));
+                    continue;
+                }
+                g.nvars += 1;
+                let name = format!("v{}", g.base + g.nvars);
+                if roll == 5 {
+                    // quoted expansion: every character of the value is quoted
+                    g.assigns.push((name.clone(), unit.to_string()));
+                    g.text.push_str(&format!("\"${{{name}}}\""));
+                } else {
+                    // unquoted expansion whose value escapes each character with a backslash
+                    let v: String = unit.chars().flat_map(|c| ['\\', c]).collect();
+                    g.assigns.push((name.clone(), v));
+                    g.text.push_str(&format!("${{{name}}}"));
+                }
+            }
+        }
+    }
+}
+
+/// A word of one to three components in which one component (at any position) is an adjacency
+/// component and the others are wildcards or names of the tree.
+fn gen_adjacent(r: &mut Rng, tree: &[Entry], base: usize) -> (String, Vec<(String, String)>) {
+    let mut g = WordGen { text: String::new(), assigns: vec![], nvars: 0, base };
+    let ncomp = 1 + r.below(3);
+    let special = r.below(ncomp);
+    for i in 0..ncomp {
+        if i > 0 {
+            g.text.push('/');
+        }
+        if i == special || r.chance(1, 4) {
+            adjacency_component(&mut g, r);
+        } else if r.chance(1, 2) || tree.is_empty() {
+            g.text.push_str(*r.pick(&["*", "*", "sub", "?*", "a*", "[!.]*"]));
+        } else {
+            let p = match r.pick(tree) {
+                Entry::File(p) | Entry::Dir(p, _) | Entry::Link(p, _) => p.clone(),
+            };
+            let name = p.split('/').next().unwrap().to_string();
+            g.text.push_str(&sq(&name));
+        }
+    }
+    (g.text, g.assigns)
+}
+
 /// A word whose unquoted expansion is split into several fields, each globbed on its own.
 fn gen_split(r: &mut Rng, base: usize) -> (String, Vec<(String, String)>) {
     let n = 2 + r.below(2);
@@ -1625,6 +1758,9 @@ fn gen_split(r: &mut Rng, base: usize) -> (String, Vec<(String, String)>) {
 fn gen_word(r: &mut Rng, tree: &[Entry], base: usize, first_word: bool) -> (String, Vec<(String, String)>) {
     if r.chance(1, 12) {
         return gen_split(r, base);
+    }
+    if r.chance(1, 8) {
+        return gen_adjacent(r, tree, base);
     }
     if r.chance(1, 2) {
         if let Some(w) = gen_guided(r, tree, base) {
